@@ -4,7 +4,9 @@ import asyncio, itertools
 from common import *
 import clientdrv as cd
 
-CHARSETS = ["utf-8", "UTF-8", "iso-8859-1", "latin-1", "utf-16", "shift_jis", "ascii", "cp1252", "bogus-charset", "hex", "", "rot13", "idna", "utf8\x00x"]
+CHARSETS = ["utf-8", "UTF-8", "iso-8859-1", "latin-1", "utf-16", "shift_jis", "ascii", "cp1252", "bogus-charset", "hex", "", "rot13", "idna", "utf8\x00x",
+            # codecs whose failure is a plain UnicodeError / ValueError (not UnicodeDecodeError, not LookupError)
+            "undefined", "punycode", "undefined", "punycode"]
 def gen_stream(rng):
     k = rng.random()
     status = rng.choice(["20", "20", "20", "21", "29", "10", "30", "31", "40", "51", "59", "60", "69", "09", "70", "99", "2", "200", "+2", " 20", "2_", "ab", "", "٢٠"])
@@ -23,7 +25,7 @@ def gen_stream(rng):
     header = (status + sep + meta).encode("utf-8", "replace")
     if rng.random() < 0.05: header = header + b"\xff"
     body = rng.choice([b"", b"hello", "café".encode("latin-1"), "café".encode("utf-8"), "日本".encode("shift_jis"), "hi".encode("utf-16"),
-                       bytes(range(256))[: rng.randint(0, 80)], b"x" * rng.choice([63, 64, 65, 100]), b"line1\r\nline2\r\n"])
+                       bytes(range(256))[: rng.randint(0, 80)], b"x" * rng.choice([63, 64, 65, 100]), b"line1\r\nline2\r\n", b"a..b", b"-"])
     end = rng.choice([b"\r\n", b"\r\n", b"\r\n", b"\r\n", b"\n", b"\r", b""])
     return header + end + body
 
